@@ -66,6 +66,8 @@ func isoName(env *Env, used map[string]bool, long bool) string {
 	}
 }
 
+var longPick int
+
 type isoShape struct {
 	depth, maxKids int
 	long, huge     bool
@@ -93,7 +95,7 @@ func genIsoTree(env *Env, sh isoShape, name string) *WNode {
 			nk = sh.wide
 		}
 		for i := 0; i < nk; i++ {
-			kn := isoName(env, used, sh.long)
+			kn := isoName(env, used, false)
 			if d < sh.depth && env.Rnd.Intn(3) == 0 && dirs < 400 {
 				dirs++
 				n.Kids = append(n.Kids, gen(d+1, kn))
@@ -108,6 +110,31 @@ func genIsoTree(env *Env, sh isoShape, name string) *WNode {
 		return n
 	}
 	root := gen(0, name)
+	if sh.long {
+		// exactly one name around the limits of a directory record / a path-table entry (Joliet: 2 bytes per character), as a
+		// file or as a directory, at the root or one level down; the cases walk through the list
+		picks := []struct {
+			n   int
+			dir bool
+		}{{111, false}, {111, true}, {128, true}, {112, false}, {221, true}, {222, false}, {200, true}, {127, false}, {223, true}, {150, true}, {255, false}, {110, true}, {110, false}, {129, true}}
+		pk := picks[longPick%len(picks)]
+		longPick++
+		kid := &WNode{Name: strings.Repeat(string(rune('k'+longPick%5)), pk.n), MTime: 1250000000}
+		if pk.dir {
+			kid.Dir = true
+			kid.Kids = []*WNode{{Name: "in.bin", MTime: 1250000001, Content: Content{{Kind: 'g', N: 300, A: 5}}}}
+		} else {
+			kid.Content = Content{{Kind: 'g', N: 1234, A: 6}}
+		}
+		p := root
+		for _, k := range root.Kids {
+			if k.Dir && longPick%2 == 0 {
+				p = k
+				break
+			}
+		}
+		p.Kids = append(p.Kids, kid)
+	}
 	for i := 0; i < sh.manyDirs; i++ { // a chain/fan of many directories (path tables past one sector)
 		p := root
 		if i%3 != 0 && len(root.Kids) > 0 {
@@ -496,7 +523,7 @@ func runIso(env *Env) error {
 			}
 		case i%11 == 5:
 			sh.manyDirs = 100 + env.Rnd.Intn(200)
-		case i%11 == 7:
+		case i%11 == 7 || i%11 == 1:
 			sh.long = true
 		case i%11 == 9:
 			sh.depth, sh.maxKids = 0, 0
